@@ -224,6 +224,13 @@ func readObject(ber []byte, offset int) (asn1Object, int, error) {
 			}
 			subObjects = append(subObjects, subObj)
 
+			// A member must end inside the element that contains it. Without
+			// this check the reader resumes at the member's claimed end and
+			// parses the bytes of an over-long member again, once per level.
+			if !indefinite && offset > contentEnd {
+				return nil, 0, errors.New("ber2der: element is longer than the element that contains it")
+			}
+
 			if indefinite {
 				terminated, err := isIndefiniteTermination(ber, offset)
 				if err != nil {
